@@ -88,6 +88,30 @@ func (o *Out) Emit(in, impl any) {
 	o.w.Write(b)
 	o.w.WriteByte('\n')
 }
+// EmitGuarded: for cases that may kill the process (a panic in a goroutine of the code under
+// test).  A marker line with the case's number and the observation `crashed` is written and
+// flushed first; the real line follows under the same number (the orchestrator keeps the last
+// line of a case number).
+func (o *Out) EmitGuarded(inBefore, crashed any, run func() (in, impl any)) {
+	o.mu.Lock()
+	n := o.n
+	o.n++
+	b, _ := json.Marshal(map[string]any{"p": o.p, "case": n, "in": inBefore, "impl": crashed})
+	o.w.Write(b)
+	o.w.WriteByte('\n')
+	o.w.Flush()
+	o.mu.Unlock()
+	in, impl := run()
+	o.mu.Lock()
+	defer o.mu.Unlock()
+	b, err := json.Marshal(map[string]any{"p": o.p, "case": n, "in": in, "impl": impl})
+	if err != nil {
+		panic(err)
+	}
+	o.w.Write(b)
+	o.w.WriteByte('\n')
+	o.w.Flush()
+}
 func (o *Out) Close() {
 	o.w.Flush()
 	o.f.Close()
